@@ -8,6 +8,7 @@ package main
 import (
 	"fmt"
 	"strings"
+	"unicode/utf8"
 
 	. "vh/kit"
 )
@@ -147,7 +148,7 @@ func randStyle(rng *Rng, v string, quirkFree bool) aStyle {
 var optTypes = []string{"OU", "CN", "L", "STREET", "POSTALCODE", "SERIALNUMBER", "DC", "UID", "1.2.3.4", "2.5.4.3", "E", "T"}
 
 var plainValues = []string{"US", "WA", "Notary", "notary", "Notar", "Notary1", "Notation Inc", "Seattle", "alice", "a", "x", "WA ", "ACME Corp", "dev", "Dev"}
-var spicyValues = []string{"a,b", "a+b", "a=b", "a;b", "#lead", " lead", "trail ", "a\\b", "a\"b", "<a>", "back\\", " ", "a  b", "a=#b", "x#y", "\\", "a\tb", "tab\t", "\"q\"", "1+1=2", "C=US", "p, q; r", "\x01\x7f", "caf\xc3\xa9", "\xff"}
+var spicyValues = []string{"a,b", "a+b", "a=b", "a;b", "#lead", " lead", "trail ", "a\\b", "a\"b", "<a>", "back\\", " ", "a  b", "a=#b", "x#y", "\\", "a\tb", "tab\t", "\"q\"", "1+1=2", "C=US", "p, q; r", "\x01\x7f", "caf\xc3\xa9", "\xff", "na\u00efve \U0001f511", "\u00a0nbsp\u00a0", "\u2003", "a\u0085b", "Z\u00fcrich", "\u682a\u5f0f\u4f1a\u793e"}
 
 func randValue(rng *Rng) string {
 	if rng.Chance(3, 4) {
@@ -208,12 +209,27 @@ func nearMiss(rng *Rng, v string) string {
 
 // ---- free-form renderer with edit operators (parse family) ----
 
+// A value that is valid UTF-8 keeps each multi-byte character either raw or
+// hex-escaped as a whole (the text stays valid UTF-8, the input contract of the
+// model); the bytes >= 0x80 of any other value are always hex-escaped.
 func freeEscape(rng *Rng, v string) string {
 	var sb strings.Builder
+	valid := utf8.ValidString(v)
 	for i := 0; i < len(v); i++ {
 		b := v[i]
 		edge := i == 0 || i == len(v)-1
 		switch {
+		case b >= 128 && valid:
+			_, n := utf8.DecodeRuneInString(v[i:])
+			if rng.Chance(2, 3) {
+				sb.WriteString(v[i : i+n])
+			} else {
+				up := rng.Bool()
+				for j := i; j < i+n; j++ {
+					sb.WriteString(hexEscape(up, v[j]))
+				}
+			}
+			i += n - 1
 		case b >= 128:
 			sb.WriteString(hexEscape(rng.Bool(), b))
 		case b == '\\' || isSep(b) || (edge && b == ' ') || (i == 0 && b == '#'):
@@ -334,12 +350,12 @@ func editDN(rng *Rng, d []attr, op string) string {
 	case "short-hex":
 		return joinParts(rng, parts) + "\\4"
 	case "only-space":
-		return Pick(rng, []string{"", " ", "\t", " \n ", "\v\f\r", "  \t  "})
+		return Pick(rng, []string{"", " ", "\t", " \n ", "\v\f\r", "  \t  ", "\u00a0", " \u0085\u2003", "\u3000\u1680\u2028\u2029\u202f\u205f", "\u200a\u2000 ", "\u200b", "\u00a0x", "\u180e", "\ufeff", " \u00a1"})
 	}
 	return joinParts(rng, parts)
 }
 
-var malformedAlphabet = []string{"C", "S", "T", "O", "CN", "=", "=", ",", "+", ";", "\\", " ", "#", "\"", "4", "1", "a", "x", "\t", "US", "ST=WA", "C=US", "O=x", "\\,", "\\20", "=#"}
+var malformedAlphabet = []string{"C", "S", "T", "O", "CN", "=", "=", ",", "+", ";", "\\", " ", "#", "\"", "4", "1", "a", "x", "\t", "US", "ST=WA", "C=US", "O=x", "\\,", "\\20", "=#", "\u00e9", "\u00a0", "\u2003", "\U0001f511", "\\c3", "\\a9"}
 
 func malformed(rng *Rng) string {
 	n := 1 + rng.Intn(12)
